@@ -35,6 +35,7 @@ type facts struct {
 	CliOptions    []site      `json:"cliOptions"`    // go-flags struct tags of cmd/bkl (func = short flag, what = choices)
 	ExitCalls     []site      `json:"exitCalls"`     // os.Exit / stdout writes in cmd/*
 	GoStatements  []site      `json:"goStatements"`  // `go` statements (concurrency inside the library)
+	DirectiveSeq  []site      `json:"directiveSeq"`  // per function: the `$` literals of its body in source order (what = joined by " ")
 }
 
 func posFunc(fset *token.FileSet, files []*ast.File, pos token.Pos) (string, string) {
@@ -128,6 +129,29 @@ func main() {
 					kind = "formatTable"
 				}
 				f.PkgVars = append(f.PkgVars, site{"", n, kind})
+			}
+		}
+	}
+	// the order in which a function tests for / pops directives is part of the semantics (e.g. `$encode` before
+	// `$decode` in process2Map): list the `$` literals of every function body in source order
+	for _, file := range files {
+		for _, d := range file.Decls {
+			fd, ok := d.(*ast.FuncDecl)
+			if !ok || fd.Body == nil {
+				continue
+			}
+			var seq []string
+			ast.Inspect(fd.Body, func(n ast.Node) bool {
+				if bl, ok := n.(*ast.BasicLit); ok && bl.Kind == token.STRING {
+					v := constant.StringVal(constant.MakeFromLiteral(bl.Value, token.STRING, 0))
+					if strings.HasPrefix(v, "$") && !strings.ContainsAny(v, " %=") {
+						seq = append(seq, v)
+					}
+				}
+				return true
+			})
+			if len(seq) > 0 {
+				f.DirectiveSeq = append(f.DirectiveSeq, site{filepath.Base(fset.Position(fd.Pos()).Filename), fd.Name.Name, strings.Join(seq, " ")})
 			}
 		}
 	}
